@@ -68,7 +68,7 @@ def tree_hash():
 
 
 def harness_hash(extra=()):
-    files = glob.glob(HARN + '/*.h') + glob.glob(ROOT + '/stubs/ceres/*') + list(extra)
+    files = glob.glob(HARN + '/*.h') + [HARN + '/model.cpp'] + glob.glob(ROOT + '/stubs/ceres/*') + list(extra)   # model.cpp: the oracle is linked into every monitor
     return hash_files(files)
 
 
